@@ -29,7 +29,9 @@ def _select(case):
     cands = [stub_class(i + 1, r) for i, r in enumerate(out)]
     win = set(_set(case['winners']))
     probs = []
-    for how in ('select_univariate', 'Univariate.fit', 'Univariate.fit(instances)', 'copula(Univariate(candidates))', 'copula({col: Univariate(candidates)})'):
+    from ..stubs import ParamStub
+    for how in ('select_univariate', 'Univariate.fit', 'Univariate.fit(instances)', 'copula(Univariate(candidates))', 'copula({col: Univariate(candidates)})',
+                'Univariate.fit(prototypes of one class)', 'select_univariate(prototypes of one class, positional)'):
         try:
             if how == 'select_univariate':
                 inst = select_univariate(X.copy(), list(cands))
@@ -41,6 +43,19 @@ def _select(case):
                 u = Univariate(candidates=[c() for c in cands])
                 u.fit(X.copy())
                 inst = u._instance
+            elif how.endswith('of one class)') or how.endswith('positional)'):
+                # several prototypes of the same family that differ in their constructor arguments only
+                protos = [ParamStub(r, i) if how.endswith('positional)') else ParamStub(rank=r, position=i) for i, r in enumerate(out)]
+                if how.startswith('select'):
+                    inst = select_univariate(X.copy(), protos)
+                else:
+                    u = Univariate(candidates=protos)
+                    u.fit(X.copy())
+                    inst = u._instance
+                pos = [inst.POSITION + 1] if isinstance(inst, ParamStub) else []
+                if not pos or pos[0] not in win or inst.RANK != out[pos[0] - 1]:
+                    probs.append(('selected-candidate-not-of-minimal-KS', '%s chose %s for outcomes %s (minimal: %s)' % (how, pos, out, sorted(win))))
+                continue
             else:
                 # the wrapper as the copula's prototype instance, its candidate list given positionally
                 from copulas.multivariate import GaussianMultivariate
@@ -233,6 +248,14 @@ def _dispatch(case):
     df = pd.DataFrame(z, columns=cols)
     raises = set(_set(case['raises']))
     named = set(_set(case['named']))
+    const_col = None
+    if (n + len(named)) % 3 == 0:
+        # now and then one of the columns is constant: every family models a constant column without raising, so the column keeps
+        # the distribution that was configured for it (unless that one is marked as raising)
+        free = [i for i in range(1, n + 1) if i not in raises]
+        if free:
+            const_col = free[(n + len(raises)) % len(free)]
+            df[cols[const_col - 1]] = 2.5
     for i in raises:
         df[cols[i - 1]] += 1000.0 * (1 + (3 * i + n + len(named) + len(case['form'])) % 11)      # the shift selects the exception type (stubs.ERRORS)
     form = case['form']
